@@ -11,7 +11,7 @@ Import TlsPolicy Wire.
 
 Definition today : tables :=
   {| tb_auth := auth_sets; tb_ctl := ctl_sites; tb_enc := enc_sites; tb_calls := call_keys;
-     tb_lits := msg_lits; tb_writes := clear_writes; tb_flows := marshal_flows |}.
+     tb_lits := msg_lits; tb_writes := clear_writes; tb_flows := marshal_flows; tb_crw := crypto_rw_shape |}.
 
 (* the sniff with today's translated head byte constant *)
 Definition sniff_today := Sniff.sniff_with GenWire.frp_tls_head_byte.
@@ -140,6 +140,43 @@ Theorem C05_secrets_never_clear : forall c knows h a,
 Proof. intros c knows h a Hn Hk. exact (secrets_never_clear today c knows C05_today_facts_ok Hn Hk h a). Qed.
 Print Assumptions C05_secrets_never_clear.
 
+(* the control cipher layer exists for EVERY key value (reflective over the translated body of
+   NewCryptoReadWriter: no early return that skips it) on both ends, under no condition on the token *)
+Theorem C05_control_cipher_unconditional : forall c t,
+  w_internal c = false -> c2s today c t = TCipher ATok t /\ s2c today c t = TCipher ATok t.
+Proof.
+  intros c t. exact (ctl_spec today c t (proj1 (proj2 (proj2 (proj2 (facts_parts today C05_today_facts_ok)))))).
+Qed.
+Print Assumptions C05_control_cipher_unconditional.
+
+(* the observer who knows only what is public ([public c]: the token iff it is the empty string).
+   PARTIAL: holds for every configuration with a non-empty token ... *)
+Theorem C05_secrets_never_clear_public_partial : forall c h a,
+  w_internal c = false -> w_token_empty c = false ->
+  In a (visible_all (public c) (wire today c h)) -> is_secret a = false.
+Proof.
+  intros c h a Hn He. exact (secrets_never_clear today c (public c) C05_today_facts_ok Hn (public_no_secret c He) h a).
+Qed.
+Print Assumptions C05_secrets_never_clear_public_partial.
+
+(* ... and is REFUTED for the excluded class: with auth.token = "" (oidc method, or no token) and TLS off,
+   the control cipher is keyed by a value everybody knows, so the stcp secret key and the HTTP password
+   of NewProxy are readable (finding F-C05a; replayed by the wire driver with a decrypting observer) *)
+Theorem C05_secrets_empty_token_refuted : exists c h a b,
+  w_internal c = false /\ w_token_empty c = true /\ conn_tls c = false /\
+  a = ASk 3 /\ b = APwd 2 /\
+  In a (visible_all (public c) (wire today c h)) /\ In b (visible_all (public c) (wire today c h)).
+Proof.
+  exists {| w_client := client_complete {| ct_protocol := ""; ct_tcp_mux := Some false; ct_tls_enable := Some false;
+                                           ct_disable_custom_first_byte := None; ct_tls := mk_tls_files "" "" "" "" |};
+            w_server_addr := "127.0.5.2"; w_force := false; w_internal := false; w_token_empty := true;
+            w_scope_hb := false; w_scope_nwc := false; w_pair_ok := true; w_read_ok := true |},
+         [ELogin 1; ENewProxy (mk_pcfg 2 PkHttp false false); ENewProxy (mk_pcfg 3 PkStcp false false)],
+         (ASk 3), (APwd 2).
+  vm_compute. intuition.
+Qed.
+Print Assumptions C05_secrets_empty_token_refuted.
+
 (* the same for any tables passing the checker (what the reflective condition buys) *)
 Theorem C05_secrets_never_clear_gen : forall T c knows h a,
   facts_ok T = true -> w_internal c = false -> (forall s, is_secret s = true -> knows s = false) ->
@@ -207,7 +244,7 @@ Definition ex_client (tls : bool) : client_transport :=
   client_complete {| ct_protocol := ""; ct_tcp_mux := Some false; ct_tls_enable := Some tls;
                      ct_disable_custom_first_byte := None; ct_tls := mk_tls_files "" "" "" "" |}.
 Definition ex_cfg (tls force : bool) : wcfg :=
-  {| w_client := ex_client tls; w_server_addr := "127.0.5.1"; w_force := force; w_internal := false;
+  {| w_client := ex_client tls; w_server_addr := "127.0.5.1"; w_force := force; w_internal := false; w_token_empty := false;
      w_scope_hb := true; w_scope_nwc := true; w_pair_ok := true; w_read_ok := true |}.
 Definition ex_p : pcfg := {| p_id := 1; p_kind := PkHttp; p_enc := false; p_comp := false |}.
 Definition ex_hist := [ELogin 1; ENewProxy ex_p; EWorkConn ex_p 2; EPayload ex_p Up 7; EPing 3].
